@@ -20,6 +20,11 @@ impl TieredEngine {
     // abstract "document with this global id exists in the engine"
     pub uninterp spec fn has(&self, d: u64) -> bool;
     #[verifier::external_body] pub fn exists(&self, d: u64) -> (r: bool) ensures r == self.has(d) { unimplemented!() }
+    // abstract "the hot tier is at its hard limit": an insert into such an engine starts with an EMERGENCY DRAIN of the hot tier, for which
+    // the engine-side contract (unit engine_write_paths, TieredEngine::insert) states no frame: neither `Err ==> nothing changed` nor
+    // `Ok ==> only this id changed` is proved for that call.  The server units' insert stubs claim their frame clauses only for
+    // `!at_limit()` (checked against the proved contract by unit implied_server_engine)
+    pub uninterp spec fn at_limit(&self) -> bool;
 }
 #[verifier::external_body] pub struct Instant { _p: core::marker::PhantomData<()> }
 #[verifier::external_body] pub struct KyroDbConfig { _p: core::marker::PhantomData<()> }
